@@ -258,7 +258,12 @@ def sweep(cns, rns, work, cfg):
                 hashes.add(hash((fam, tuple(at for an, at in attrs), variant, op if op[:6] != 'pickle' else 'pickle', exp, combo)))
                 cnt[exp] = cnt.get(exp, 0) + 1
                 if problem:
-                    key = 'c29|%s|%s|%s|%s' % (fam, 'pickle' if op.startswith('pickle') else op, variant, problem)
+                    pclass = problem
+                    if problem.startswith('outcome:'):
+                        pclass = 'outcome:%s' % ('unpicklable-accepted' if exp == 'TypeError' and got == 'ok' else
+                                                 ('picklable-refused' if got == 'TypeError' else 'picklable-raises-other'))
+                    opk = op if problem in ('copy-not-shallow', 'not-a-copy') else '*'
+                    key = 'c29|%s|%s|%s' % (fam if fam in ('flat', 'inherit') else 'options:' + fam, opk, pclass)
                     mism.append((key, '%s %s of %s %s values %r: expected %s, got %s (%s); state before %s after %s' % (
                         op, variant, cname, attrs, combo, exp, got, problem, short(before),
                         short(_state(o2, attrs)) if got == 'ok' else '-'), {'op': op, 'variant': variant, 'values': list(combo)}))
